@@ -70,11 +70,16 @@ def family(identity: str) -> str:
 UNASSIGNED = tuple(range(1, 1000)) + tuple(range(2000, 4000))
 
 
+# numbers RTCM 10403.3 reserves inside the MSM block (between and behind the seven constellations'
+# MSM1-7 ranges): named "Reserved MSM" by the library, no payload definition, must decode as stubs
+RESERVED_MSM = (1070,) + tuple(n for b in range(1078, 1138, 10) for n in (b, b + 1, b + 2)) + tuple(range(1138, 1230))
+
+
 def unknown_frame(rng, nbytes=None) -> bytes:
-    """a frame with an unassigned message number and a seeded payload"""
+    """a frame with an unassigned (1 in 8: reserved-MSM) message number and a seeded payload"""
     if nbytes is None:
         nbytes = rng.choice((2, 3, 4, 8, 20, 60, 255, 256, 257, 511, 512, 513, 1023, rng.randrange(2, 1024)))
-    no = rng.choice(UNASSIGNED)
+    no = rng.choice(UNASSIGNED) if rng.randrange(8) else rng.choice(RESERVED_MSM)
     return wire.rtcm_frame(wire.rtcm_payload(no, rng.getrandbits(max(1, nbytes * 8 - 12)), nbytes))
 
 
